@@ -137,12 +137,14 @@ inductive Op where
   | aliveWorkers (p : Pid) (twice : Bool)                -- the property `pool.workers` = `[c for c in self._workers if c.is_alive]`; `twice`: evaluated twice in a row (error message of `wait_until_alive`, courier_worker.py:315–321)
   | submitW (p : Pid) (w : Wid) (stage : Nat)            -- `w.submit(task)` up to and including `call` (courier_utils.py:715–727): stage 0 from `wait_until_alive` (`is_alive`, evaluated once more when false: 603–611), 1 from the `is_alive` of its retry loop, ≥ 2 from `has_capacity`
   | acquireAllCall (p : Pid)                             -- `self._acquire_all()` then `[c.call(..) for c in self._workers]` (`call_and_wait`, 325–329)
+  | isAliveW (p : Pid) (w : Wid)                         -- `task.is_alive` → `w.is_alive` by a thread acting for `p` (`as_completed`, orchestrate.py:517)
+  | acquiredWorkers (p : Pid)                            -- the property `pool.acquired_workers` = `[w for w in self._workers if w.is_locked(self)]` (`as_completed`, 531)
   deriving DecidableEq, Repr
 
 def Op.pool : Op → Pid
   | .acquireAll p _ _ | .releaseAll p _ | .nextIdle p _ _ | .releaseOne p _ _
   | .releaseAllOrig p _ | .finalize p | .idleWorkers p | .callW p _
-  | .aliveWorkers p _ | .submitW p _ _ | .acquireAllCall p => p
+  | .aliveWorkers p _ | .submitW p _ _ | .acquireAllCall p | .isAliveW p _ | .acquiredWorkers p => p
 
 /-- Operations of the repaired code (every release is owner-checked under the lock). -/
 def Op.repaired : Op → Bool
@@ -173,13 +175,14 @@ inductive K where
   | acqCA (p : Pid) (w : Wid) (rest : List Wid) (got : Bool) (all : List Wid)   -- `call_and_wait`: awaiting `w.is_available(self)`
   | acqCB (p : Pid) (w : Wid) (rest : List Wid) (got : Bool) (all : List Wid)   -- … `w.acquire_by(self)`
   | callAll (p : Pid) (rest : List Wid)                           -- … `w.call(..)`, then the remaining workers
+  | acqW (p : Pid) (w : Wid) (rest acc : List Wid)                -- `acquired_workers`: awaiting `w.is_locked(self)`
   deriving DecidableEq, Repr
 
 def K.pool : K → Pid
   | .acqAllA p .. | .acqAllB p .. | .relAll p .. | .origA p .. | .origB p .. | .next1L p ..
   | .next1U p .. | .next2A p .. | .next2U p .. | .relOne p
   | .next1C p .. | .next2C p .. | .idleA p .. | .idleC p .. | .idleU p ..
-  | .aliveU p .. | .subI p .. | .subC p .. | .acqCA p .. | .acqCB p .. | .callAll p .. => p
+  | .aliveU p .. | .subI p .. | .subC p .. | .acqCA p .. | .acqCB p .. | .callAll p .. | .acqW p .. => p
 
 /-- Value returned by a finished pool operation. -/
 inductive Res where
@@ -252,6 +255,11 @@ def acqCLoop (p : Pid) (all : List Wid) : List Wid → Bool → Next
 def acqCIter (p : Pid) (all rest : List Wid) (got : Bool) : Next :=
   if got then acqCLoop p all rest got else callLoop p all
 
+/-- `acquired_workers` loop head (courier_worker.py:262–264). -/
+def acqWLoop (p : Pid) : List Wid → List Wid → Next
+  | [], acc => .finish (.workers acc.reverse) none
+  | w :: rest, acc => .call ⟨w, p, .lRdLocked, true⟩ (.acqW p w rest acc)
+
 /-- Resume the pool operation with the value `b` returned by the `Worker` method. -/
 def resume : K → Bool → Next
   | .acqAllA p w rest acc n, b =>
@@ -283,6 +291,7 @@ def resume : K → Bool → Next
     if b then .call ⟨w, p, .aEnter, true⟩ (.acqCB p w rest got all) else acqCIter p all rest got
   | .acqCB p _ rest got all, b => acqCIter p all rest (got || b)
   | .callAll p rest, _ => callLoop p rest
+  | .acqW p w rest acc, b => acqWLoop p rest (if b then w :: acc else acc)
 
 /-- Begin an operation (`pw p` = `pool._workers`). -/
 def start (pw : Pid → List Wid) : Op → Next
@@ -301,6 +310,8 @@ def start (pw : Pid → List Wid) : Op → Next
     | 1 => .call ⟨w, p, .iEnter, true⟩ (.subI p w true)
     | _ => .call ⟨w, p, .cEnter, true⟩ (.subC p w)
   | .acquireAllCall p => acqCLoop p (pw p) (pw p) false
+  | .isAliveW p w => .call ⟨w, p, .iEnter, true⟩ (.relOne p)
+  | .acquiredWorkers p => acqWLoop p (pw p) []
 
 structure Thread where
   script : List Op := []
